@@ -428,6 +428,31 @@ def op_sample_model(which, burnin=1):
     return run
 
 
+def op_model_direct(which, order):
+    """Model training driven directly (no sampling.sample): the generator is handed over with set_rng, the model is reset and
+    stepped - in both orders of set_rng / reset_model."""
+    def run(seed, variant, tmp):
+        screen = input_screen(variant, all_observed=True)
+        es = ExperimentSpace.from_screen(screen)
+        cls = SparseDrugCombo if which == "combo" else SparseDrugComboInteraction
+        model = cls(experiment_space=es, n_embedding_dimensions=2)
+        model.add_observations(screen.subset_observed())
+        g = np.random.default_rng(seed)
+        if order == "rng-then-reset":
+            model.set_rng(g)
+            model.reset_model()
+        else:
+            model.reset_model()
+            model.set_rng(g)
+        out = []
+        for _ in range(3):
+            model.step()
+            th = model.get_model_state()
+            out.append(tuple((k_, np.asarray(v_, dtype=float).tobytes()) for k_, v_ in sorted(dict(th.private_parameters_dict()).items())))
+        return tuple(out)
+    return run
+
+
 def op_sample_vi_stub(seed, variant, tmp):
     """sampling.sample's variational branch with a stub VIModel that draws from the generator it is handed."""
     from batchie.core import BayesianModel, VIModel
@@ -565,6 +590,9 @@ def operations(tier):
     # edge of the schedule: no burn-in at all (the seeded stream must reach the model just the same)
     ops["sample:SparseDrugCombo:burnin0"] = op_sample_model("combo", burnin=0)
     ops["sample:SparseDrugComboInteraction:burnin0"] = op_sample_model("interaction", burnin=0)
+    for which in ("combo", "interaction"):
+        for order in ("rng-then-reset", "reset-then-rng"):
+            ops[f"model:{which}:{order}"] = op_model_direct(which, order)
     ops["sample:variational-stub"] = op_sample_vi_stub
     ops["cli:prepare_retrospective_simulation"] = cli_prepare(False)
     ops["cli:prepare_retrospective_simulation+initial"] = cli_prepare(True)
@@ -615,7 +643,10 @@ def _call_policy(obj, seed, variant):
     h_ = ChunkedScoresHolder(len(un))
     for i, p in enumerate(un):
         h_.add_score(p, float((i * 7 + variant) % 3))
-    plate = select_next_plate(h_, screen, obj, batch_plate_ids=[un[0]] if variant else [], rng=np.random.default_rng(seed))
+    # input 0: empty batch; 1: one plate of the first sample; any other input: one plate of the first and one of the last sample
+    # (two samples part way through for k >= 2)
+    batch = {0: [], 1: [un[0]]}.get(variant, [un[0], un[-1]])
+    plate = select_next_plate(h_, screen, obj, batch_plate_ids=batch, rng=np.random.default_rng(seed))
     return None if plate is None else int(plate.plate_id)
 
 
@@ -641,6 +672,8 @@ def reuse_operations():
         "reuse:BatchieEnsemblePlateSmoother(2,1,1)": (lambda: R.BatchieEnsemblePlateSmoother(min_size=2, n_iterations=1, min_n_cell_line_plates=1), _call_smoother),
         "reuse:SparseCoverPlateGenerator": (lambda: R.SparseCoverPlateGenerator(reveal_single_treatment_experiments=False), _call_cover),
         "reuse:KPerSamplePlatePolicy(1)": (lambda: KPerSamplePlatePolicy(k=1), _call_policy),
+        "reuse:KPerSamplePlatePolicy(2)": (lambda: KPerSamplePlatePolicy(k=2), _call_policy),
+        "reuse:KPerSamplePlatePolicy(3)": (lambda: KPerSamplePlatePolicy(k=3), _call_policy),
     }
 
 
